@@ -52,3 +52,10 @@ Theorem c19_reject_connack : forall s auth fr code,
     Stack.Model.fp_level_ok p = true /\ Stack.Model.fp_client_id p = [] /\ Stack.Model.fp_clean p = false /\
     Stack.Model.fp_keep_alive p <> 0 /\ Stack.Spec.creds_accepted s auth p.
 Proof. exact Stack.Proofs.c19_reject_connack. Qed.
+
+(** the admission decision does not depend on the CONNECT properties (session expiry interval,
+    receive maximum, maximum packet size, topic alias maximum) *)
+Theorem c19_props_irrelevant : forall s auth p props,
+  Stack.Model.admission s auth (Stack.Model.FirstPacket (Stack.Model.set_fp_props p props)) =
+  Stack.Model.admission s auth (Stack.Model.FirstPacket p).
+Proof. exact Stack.Proofs.c19_props_irrelevant. Qed.
